@@ -20,6 +20,9 @@ func KindOf(e *yang.Entry) string {
 		return "leaf"
 	case e.RPC != nil:
 		return "rpc"
+	case isAction(e):
+		// an action written without input and output has no RPC part (an rpc gets an empty one)
+		return "rpc"
 	case e.Kind == yang.ChoiceEntry:
 		return "choice"
 	case e.Kind == yang.CaseEntry:
@@ -38,6 +41,11 @@ func KindOf(e *yang.Entry) string {
 		return "list"
 	}
 	return "container"
+}
+
+func isAction(e *yang.Entry) bool {
+	_, ok := e.Node.(*yang.Action)
+	return ok
 }
 
 // What selects the attributes compared.
